@@ -30,7 +30,7 @@ CHECKS = {
          "read_string -> dump -> write on trees from API histories, parsed texts and boundary value pools under sampled/all option "
          "words, precisions, tab widths and default formats, with an independent Python implementation of the property's equivalence "
          "(glibc-exact printf rendering, correctly rounded float) and text idempotence."),
-   note=TB + "Not proved: idempotence of the text (write after re-read gives the same bytes) and, with scientific notation on, two float side conditions (rendering length, no overflow on read-back) stay hypotheses — both decided by the oracle. Known findings C01:member-name~/^(true|false)$/i and C01:nesting-beyond-parser-stack are reproduced deliberately on every run.",
+   note=TB + BR + "Idempotence of the text is proved too (Properties/C01Idem.lean): C01_float_idem (default notation, every finite double, precision <= 26: printf(strtod(printf x)) = printf x, ties included), C01_rewrite_same (the re-read configuration writes the same bytes), C01_float_idem_sci / C01_rewrite_same_sci (scientific notation, normal values and zero, precision <= 15 or >= 17), C01_floatOK_sci (the two float side conditions under scientific notation hold for every finite double, precision <= 70), C01_floorLog10_spec, C01_ofRat_err (half an ulp). The proof attempt REFUTED idempotence for subnormal values under scientific notation (C01_sci_denormal: 21*2^-1074 at precision 2) — reproduced on the implementation and recorded as the third known finding; at the undocumented precision 16 it fails for normal values too (C01_sci_p16; outside the property's quantifier). Known findings C01:member-name~/^(true|false)$/i, C01:nesting-beyond-parser-stack and C01:subnormal-scientific-rewrite are reproduced deliberately on every run.",
    technique='end-to-end round-trip theorem in Lean 4 (writer items -> compiled scanner -> LALR parser over translated tables, kernel-checked certificates) + write/read/compare direct oracle + byte-exact writer correspondence', ref='§5 C01'),
  'C02': dict(
    text=("Proved: C02_sound — whenever the model of bison's yyparse loop over the TRANSLATED tables (with the real scanner model and the real "
@@ -42,13 +42,20 @@ CHECKS = {
          "the converse: whenever the token kinds of the input are derivable from the grammar, the parser over the translated tables never "
          "reports a syntax error (it accepts, or stops with a semantic error — duplicate name, mismatched element —, an include/scan "
          "error or stack exhaustion); proved with a second kernel-decided certificate (per state, the set of viable lookaheads closed "
-         "under default reductions) and a viable-prefix invariant. The error classes and the denotation of the tree are decided to a "
-         "bound: every viable token-kind prefix up to the bound plus every one-token "
+         "under default reductions) and a viable-prefix invariant. C02D_parse_denotes / C02D_accept / C02D_error "
+         "(Properties/C02Denote.lean): the parser REFINES a readable reference interpreter of the documented grammar (Denote.lean: "
+         "recursive descent over tokens, no LR tables): when `denote` answers a tree the parser accepts and has built exactly that "
+         "tree (names, order, types, values, hex/decimal format, adjacent strings concatenated, overrides replace and move to the "
+         "end); when it answers an error kind (syntax / duplicate name / mismatched array element — the first offence in reading "
+         "order) the parser aborts with exactly that message; C02D_read_string/_stream/_file lift it to the read functions, "
+         "C02D_scanner_names ties NAME tokens to valid names through C18. Side condition: nesting <= 1665 (beyond the parser stack "
+         "the statement is refuted: C02D_unbounded_statement_false — the recorded finding). Additionally decided to a "
+         "bound on the implementation: every viable token-kind prefix up to the bound plus every one-token "
          "invalid extension, rendered with varied spellings, duplicates and mixed arrays injected and tracked, overrides off/on, against "
          "an independent recogniser of the documented grammar (direct oracle: accept/reject and error class by first offence) and against "
          "the model (result, error text/line, full tree with source lines)."),
-   note=TB + "Which semantic error is reported first and which tree an accepted text denotes are decided by exhaustive-to-bound correspondence (quick: length 6, thorough: 9) and the model-as-specification, not by a grammar-level theorem; when a translated action or table changes, the failing-input search runs against the model over the committed reference translation; known findings C02:string-element-mismatch-line and C02:parser-stack-limit are reproduced by the model.",
-   technique='LR soundness and completeness theorems over translated LALR tables (kernel-decided certificate checks + loop invariants) in Lean 4; exhaustive-to-bound correspondence against an independent grammar recogniser', ref='§5 C02'),
+   note=TB + BR + "Error LINES are not specified by the interpreter (decided by correspondence and the error oracle); an include error arriving as lookahead can replace the message of a pending array mismatch (C02D_include_error_text) — hence the error direction assumes a run without include errors; when a translated action or table changes, the failing-input search runs against the model over the committed reference translation; known findings C02:string-element-mismatch-line and C02:parser-stack-limit are reproduced by the model.",
+   technique='LR soundness and completeness theorems + refinement of the parser to a reference interpreter of the documented grammar, over translated LALR tables (kernel-decided certificates, simulation) in Lean 4; exhaustive-to-bound correspondence against an independent grammar recogniser', ref='§5 C02'),
  'C03': dict(
    text=("Partial. 62 theorems about the part of the property that is logic. No stray output: C03_no_echo / C03_read_no_echo — for any "
          "bytes, through any include files, yylex over the translated tables never takes flex's default ECHO rule (the only action "
